@@ -2,6 +2,7 @@ import Uom.Model.Duration
 import Uom.Proofs.FlConvIdentity
 import Uom.Proofs.DurationBasic
 import Uom.Proofs.DurationAcc
+import Uom.Proofs.BodyEq.Dur
 /-!
 # C14 — Time ↔ std Duration conversion is total, classified and accurate
 
@@ -136,5 +137,42 @@ theorem int_decimal_base_exact (k : Nat) (hk : k ≤ 9) (v : Int) (s n : Nat)
     (h : durOfTimeInt (1 / 10 ^ k) 1 (1 / 10 ^ 9) v = .ok s n) :
     (s : Int) * 10 ^ 9 + (n : Int) = v * 10 ^ (9 - k) ∧ n < 10 ^ 9 ∧ (s : Int) = v / 10 ^ k :=
   DurationAcc.durOfTimeInt_decimal_exact k hk v h
+
+/-! ### tie to the source: the two `TryFrom` impls regenerated from /repo/src/si/time.rs on this run
+
+`Gen.RxBody.si_time_TryFrom_Time_for_Duration_try_from` / `…_Duration_for_Time_try_from` are what the
+translator read from the Rust source just now (the early `return`, the two `let`s, the tuple `match`);
+`Rx.run` evaluates them over abstract operations, and over the soft-float model they are `durOfTimeFl` /
+`timeOfDurFl` — the functions every theorem above is about. -/
+section SourceTieRx
+open Uom.Rx Uom.Gen.RxBody Uom.BodyEq.Dur
+
+theorem src_try_from_time {V : Type} (o : DurOps V) (v : V) :
+    run (envDur o) si_time_TryFrom_Time_for_Duration_try_from [.host (.q v)] = (embedDur (durSpec o v), []) :=
+  try_from_time_eq o v
+
+theorem src_try_from_time_fl (f : Fmt) (fac cs cn v : Fl) :
+    run (envDur (flOps f fac cs cn)) si_time_TryFrom_Time_for_Duration_try_from [.host (.q v)] =
+      (embedDur (durOfTimeFl f fac cs cn v), []) := try_from_time_fl f fac cs cn v
+
+/-- **classification, for the source**: the regenerated body reports `NegativeDuration` exactly for a
+    strictly negative float (so not for −0.0, not for NaN) -/
+theorem src_negative_iff (f : Fmt) (fac cs cn v : Fl) :
+    (run (envDur (flOps f fac cs cn)) si_time_TryFrom_Time_for_Duration_try_from [.host (.q v)]).1 =
+        .val (.ctor1 cErr (.ctor0 c_TryFromError_NegativeDuration)) ↔ Fl.lt v (Fl.zero f false) = true := by
+  rw [try_from_time_fl, ← neg_iff f fac cs cn v]
+  cases h : durOfTimeFl f fac cs cn v <;>
+    simp [embedDur, cOk, cErr, c_TryFromError_NegativeDuration, c_TryFromError_Overflow]
+
+theorem src_try_from_duration {V : Type} (o : DurOps V) (secs nanos : Nat) :
+    run (envDur o) si_time_TryFrom_Duration_for_Time_try_from [.host (.dur secs nanos)] =
+      (embedTime (timeSpec o secs nanos), []) := try_from_duration_eq o secs nanos
+
+theorem src_try_from_duration_fl (f : Fmt) (fac cs cn : Fl) (secs nanos : Nat) :
+    run (envDur (flOps f fac cs cn)) si_time_TryFrom_Duration_for_Time_try_from [.host (.dur secs nanos)] =
+      (.val (.ctor1 cOk (.host (.q (timeOfDurFl f fac cs cn secs nanos)))), []) :=
+  try_from_duration_fl f fac cs cn secs nanos
+
+end SourceTieRx
 
 end Uom.C14
